@@ -249,3 +249,187 @@ def xml_text(min_size=0, max_size=20):
         st.text(xml_chars(), min_size=min_size, max_size=max_size),
         st.text(st.sampled_from(list(" \t\nabcXYZ019<>&\"'éı€\U0001F600%+=;/?#[]")),
                 min_size=min_size, max_size=max_size))
+
+
+# ---------------------------------------------------------------- parsers / printers
+# (used by the reference codecs; independent of spyne)
+_DT_RE = re.compile(r"^(-?\d{4,})-(\d\d)-(\d\d)T(\d\d):(\d\d):(\d\d)(\.\d+)?(Z|[+-]\d\d:\d\d)?$")
+_DATE_RE = re.compile(r"^(-?\d{4,})-(\d\d)-(\d\d)(Z|[+-]\d\d:\d\d)?$")
+_TIME_RE = re.compile(r"^(\d\d):(\d\d):(\d\d)(\.\d+)?(Z|[+-]\d\d:\d\d)?$")
+_DUR_RE = re.compile(r"^(-)?P(?:(\d+)Y)?(?:(\d+)M)?(?:(\d+)D)?"
+                     r"(?:T(?:(\d+)H)?(?:(\d+)M)?(?:(\d+)(?:\.(\d+))?S)?)?$")
+
+
+class LexError(ValueError):
+    pass
+
+
+def _tz(s):
+    if not s:
+        return None
+    if s == "Z":
+        return dtm.timezone.utc
+    sign = -1 if s[0] == "-" else 1
+    return dtm.timezone(sign * dtm.timedelta(hours=int(s[1:3]), minutes=int(s[4:6])))
+
+
+def _us(frac):
+    if not frac:
+        return 0
+    digits = frac.lstrip(".")
+    if len(digits) > 6:
+        raise LexError("more than 6 fractional digits")
+    return int(digits.ljust(6, "0"))
+
+
+def parse_datetime(s):
+    m = _DT_RE.match(s.strip(XML_WS))
+    if not m:
+        raise LexError(s)
+    y, mo, d, h, mi, sec = (int(m.group(i)) for i in range(1, 7))
+    add = dtm.timedelta(0)
+    if h == 24 and mi == 0 and sec == 0:
+        h, add = 0, dtm.timedelta(days=1)
+    return dtm.datetime(y, mo, d, h, mi, sec, _us(m.group(7)), _tz(m.group(8))) + add
+
+
+def parse_date(s):
+    m = _DATE_RE.match(s.strip(XML_WS))
+    if not m:
+        raise LexError(s)
+    return dtm.date(int(m.group(1)), int(m.group(2)), int(m.group(3)))
+
+
+def parse_time(s):
+    m = _TIME_RE.match(s.strip(XML_WS))
+    if not m:
+        raise LexError(s)
+    return dtm.time(int(m.group(1)), int(m.group(2)), int(m.group(3)), _us(m.group(4)))
+
+
+def parse_duration(s):
+    s = s.strip(XML_WS)
+    m = _DUR_RE.match(s)
+    if not m or s in ("P", "-P") or s.endswith("T"):
+        raise LexError(s)
+    neg, y, mo, d, h, mi, sec, frac = m.groups()
+    if y or mo:
+        raise LexError("year/month durations are not representable")
+    v = dtm.timedelta(days=int(d or 0), hours=int(h or 0), minutes=int(mi or 0),
+                      seconds=int(sec or 0), microseconds=_us(frac))
+    return -v if neg else v
+
+
+def parse_double(s):
+    s = s.strip(XML_WS)
+    if s in ("INF", "+INF"):
+        return float("inf")
+    if s == "-INF":
+        return float("-inf")
+    if s == "NaN":
+        return float("nan")
+    if not re.match(r"^[+-]?(\d+(\.\d*)?|\.\d+)([eE][+-]?\d+)?$", s):
+        raise LexError(s)
+    return float(s)
+
+
+def parse_decimal(s):
+    s = s.strip(XML_WS)
+    if not re.match(r"^[+-]?(\d+(\.\d*)?|\.\d+)$", s):
+        raise LexError(s)
+    return D(s)
+
+
+def parse_integer(s):
+    s = s.strip(XML_WS)
+    if not re.match(r"^[+-]?\d+$", s):
+        raise LexError(s)
+    return int(s)
+
+
+def parse_boolean(s):
+    s = s.strip(XML_WS)
+    if s in ("true", "1"):
+        return True
+    if s in ("false", "0"):
+        return False
+    raise LexError(s)
+
+
+def parse_base64(s):
+    s = re.sub(r"[ \t\r\n]", "", s)
+    try:
+        return base64.b64decode(s, validate=True)
+    except Exception as e:
+        raise LexError(str(e))
+
+
+def parse_hex(s):
+    try:
+        return bytes.fromhex(s.strip(XML_WS))
+    except ValueError as e:
+        raise LexError(str(e))
+
+
+def print_offset(off):
+    if off is None:
+        return ""
+    m = int(off.total_seconds() // 60)
+    sign = "-" if m < 0 else "+"
+    return "%s%02d:%02d" % (sign, abs(m) // 60, abs(m) % 60)
+
+
+def print_datetime(v, z_for_utc=False):
+    s = "%04d-%02d-%02dT%02d:%02d:%02d" % (v.year, v.month, v.day, v.hour, v.minute, v.second)
+    if v.microsecond:
+        s += (".%06d" % v.microsecond).rstrip("0")
+    off = v.utcoffset()
+    if off is not None and off == dtm.timedelta(0) and z_for_utc:
+        return s + "Z"
+    return s + print_offset(off)
+
+
+def print_time(v):
+    s = "%02d:%02d:%02d" % (v.hour, v.minute, v.second)
+    if v.microsecond:
+        s += (".%06d" % v.microsecond).rstrip("0")
+    return s
+
+
+def print_duration(v):
+    neg = v < dtm.timedelta(0)
+    a = -v if neg else v
+    s = "P"
+    if a.days:
+        s += "%dD" % a.days
+    h, rem = divmod(a.seconds, 3600)
+    mi, sec = divmod(rem, 60)
+    t = ""
+    if h:
+        t += "%dH" % h
+    if mi:
+        t += "%dM" % mi
+    if sec or a.microseconds:
+        t += "%d" % sec
+        if a.microseconds:
+            t += (".%06d" % a.microseconds).rstrip("0")
+        t += "S"
+    if t:
+        s += "T" + t
+    if s == "P":
+        s = "PT0S"
+    return ("-" if neg else "") + s
+
+
+def print_double(v):
+    if v != v:
+        return "NaN"
+    if v == float("inf"):
+        return "INF"
+    if v == float("-inf"):
+        return "-INF"
+    return repr(float(v))
+
+
+def print_decimal(v):
+    return format(D(v), "f")
